@@ -88,8 +88,11 @@ def simOp (P : Params) (fixed : Bool) (s : Sys) (op : String) (fs : List String)
     | some iid => match s.live.find? (fun i => i.iid = iid) with
       | some i => pure i
       | none => throw s!"model has no live instance {iid}"
-  let unwound (i : Inst) : Out :=
-    { sys := { s with live := s.live.erase i, pend := s.pend ++ [.died i.dn .other] }, new := [.died i.dn .other], res := "panic" }
+  -- a panic inside Signal / RunGroup unwinds the runnable; when it came from `nodeByDN` inside `fromContext`
+  -- the supervisor mutex is never released
+  let unwound (i : Inst) (p : Panic) : Out :=
+    { sys := { s with live := s.live.erase i, pend := s.pend ++ [.died i.dn .other] }, new := [.died i.dn .other], res := "panic",
+      extra := [("lk", if p = .nodeByDN then "1" else "0")] }
   match op with
   | "sched" =>
     let dn ← getDN
@@ -119,7 +122,7 @@ def simOp (P : Params) (fixed : Bool) (s : Sys) (op : String) (fs : List String)
     let sg ← match kvNat fs "s" with | some 0 => pure Signal.healthy | some 1 => pure Signal.done | _ => throw "bad s"
     match signal P s.tree i.dn sg with
     | .ok t => pure { sys := { s with tree := t } }
-    | .error _ => pure (unwound i)
+    | .error p => pure (unwound i p)
   | "run" =>
     let i ← getInst
     let names := parseNames ((kv fs "names").getD "-")
@@ -128,7 +131,7 @@ def simOp (P : Params) (fixed : Bool) (s : Sys) (op : String) (fs : List String)
       let new := names.map fun nm => Req.sched (i.dn ++ [nm])
       pure { sys := { s with tree := t, pend := s.pend ++ new, nextInc := s.nextInc + 1 }, new := new }
     | .ok none => pure { sys := s, res := "err" }
-    | .error _ => pure (unwound i)
+    | .error p => pure (unwound i p)
   | "ret" =>
     let i ← getInst
     let e ← match kv fs "e" >>= parseKind with | some e => pure e | none => throw "no e"
@@ -153,6 +156,7 @@ structure CaseSt where
   sys : Sys := init {}
   pure : Bool := true          -- only genuine actions so far (no perturbation, no fabricated request)
   verdict : Option String := none
+  parted : Bool := false       -- model and implementation disagreed earlier in this case
   ops : Nat := 0
 
 structure St where
@@ -176,7 +180,7 @@ def simLine (st : St) (op : String) (id : String) (fs : List String) (line : Str
     let c : CaseSt := { id := id, P := P, sys := sys, pure := (kv fs "pert") == some "false" }
     -- the harness puts the first schedule request straight into its pending list
     let exp := showDump sys []
-    let c := if line.endsWith exp then c else setVerdict c s!"diff {id} initial dump: model [{exp}] line [{line}]"
+    let c := if line.endsWith exp then c else { setVerdict c s!"diff {id} initial dump: model [{exp}] line [{line}]" with parted := true }
     ({ st with cur := c, cases := st.cases + 1 }, [])
   else if op = "end" then
     let v := match st.cur.verdict with | some v => v | none => s!"ok {id}"
@@ -185,31 +189,36 @@ def simLine (st : St) (op : String) (id : String) (fs : List String) (line : Str
     ({ st with cur := setVerdict st.cur s!"diff {id} harness: {(kv fs "why").getD "?"}" }, [])
   else
     let c := st.cur
-    if c.verdict.isSome && !(c.verdict.getD "").startsWith "diff-soft" then (st, []) else
     let c := { c with ops := c.ops + 1, pure := c.pure && kvNat fs "fab" != some 1 && op != "set" && op != "cancel" && op != "mark" }
+    -- Spec evaluated on the implementation's own report (also after model and implementation have parted):
+    -- two goroutines of one dn alive at once / the supervisor mutex leaked, in a sequence of genuine actions only
+    let implLive := ((kv fs "live").getD "-")
+    let implDup : Option String :=
+      if implLive = "-" then none else
+      let dns := (implLive.splitOn ",").map fun e => ((e.splitOn ":").getD 1 "")
+      let rec go : List String → Option String
+        | [] => none
+        | d :: rest => if rest.contains d then some d else go rest
+      go dns
+    let c := match implDup, c.pure with
+      | some d, true => setVerdict c s!"spec {id} two-instances-live two goroutines of {d} are running after op {c.ops} ({op}) of a sequence of genuine supervisor actions"
+      | _, _ => c
+    let c := if kv fs "lk" == some "1" && c.pure then
+        setVerdict c s!"spec {id} supervisor-lock-leaked after op {c.ops} ({op}) the supervisor mutex stays locked (nodeByDN panicked inside fromContext): nothing is ever restarted again"
+      else c
+    if c.parted then ({ st with cur := c }, []) else
     match simOp c.P fixedModel c.sys op fs with
-    | .error e => ({ st with cur := setVerdict c s!"diff {id} op {c.ops} ({op}): {e}" }, [])
+    | .error e => ({ st with cur := { setVerdict c s!"diff {id} op {c.ops} ({op}): {e}" with parted := true } }, [])
     | .ok o =>
       let st := { st with ops := st.ops + 1, panics := st.panics + (if o.res = "panic" then 1 else 0),
                           gcResets := st.gcResets + (if op = "gc" then o.new.length else 0) }
       let exp := showDump o.sys o.new
-      -- Spec evaluated on the implementation's own report: two goroutines of one dn alive at once
-      let implLive := ((kv fs "live").getD "-")
-      let implDup : Option String :=
-        if implLive = "-" then none else
-        let dns := (implLive.splitOn ",").map fun e => ((e.splitOn ":").getD 1 "")
-        let rec go : List String → Option String
-          | [] => none
-          | d :: rest => if rest.contains d then some d else go rest
-        go dns
       let c := { c with sys := o.sys }
-      let c := match implDup, c.pure with
-        | some d, true => setVerdict c s!"spec {id} two-instances-live two goroutines of {d} are running after op {c.ops} ({op}) of a sequence of genuine supervisor actions"
-        | _, _ => c
       let okRes := (kv fs "res") == some o.res
-      let okExtra := o.extra.all fun (k, v) => kv fs k == some v
+      let extra := if o.extra.any (·.1 = "lk") then o.extra else ("lk", "0") :: o.extra
+      let okExtra := extra.all fun (k, v) => kv fs k == some v
       let c := if okRes && okExtra && line.endsWith exp then c
-               else setVerdict c s!"diff {id} op {c.ops} ({op}): model res={o.res} {o.extra} [{exp}] impl [{line}]"
+               else { setVerdict c s!"diff {id} op {c.ops} ({op}): model res={o.res} {extra} [{exp}] impl [{line}]" with parted := true }
       ({ st with cur := c }, [])
 
 def step (st : St) (line : String) : St × List String :=
